@@ -11,20 +11,31 @@
    success, same exception (raising rule and position), and after a local failure the same (restored)
    cursor when both run in required mode (refines_spec).  The event log is not compared.
 
-   Proved here (heads with their own match()):  until< R, S > ; if_then_else ; if_must (both clauses) ;
-   opt_must (both clauses, for the code after fix 6ab3c19) ; plus the generic lemmas: the verdict of any
+   Proved here for ALL tables (heads with their own match()):  until< R, S > and until< R, S... > with several S ;
+   until< R > == until< R, any > ; if_then_else ; if_must (both clauses) ; opt_must (both clauses, for the code after fix
+   6ab3c19) ; rep< N, R > == seq< R, ..., R > (all N) ; rep_opt< N, R > == rep< N, opt< R > > (all N) ;
+   rep_min_max< Min, Max, R > == seq< rep< Min, R >, rep_opt< Max - Min, R >, not_at< R > > (all Min, Max) ;
+   plus< R > == seq< R, star< R > > == rep_min< 1, R > ; opt< R > == sor< R, success > ;
+   partial< R1, Rs... > == opt< seq< R1, partial< Rs... > > > (the prose, any number of rules) ;
+   list_tail< R, S > (= seq< R, star_partial< S, R > >) == seq< list< R, S >, opt< S > > ;
+   strict< R1, Rs... > == sor< not_at< R1 >, seq< R1, Rs... > > (any number of rules) ;
+   star_strict< R1, Rs... > == seq< star< R1, Rs... >, not_at< R1 > > (the prose) ;
+   must< R > against sor< R, raise< R > > UP TO the error position (C09_must_expansion_*: same success, never a local
+   failure, same exception of R, otherwise parse_error for the same rule R, the expansion at the start position and
+   must< R > at the position of a cursor reached from the start) ;
+   rematch< R, S... > and minus< M, S > against the direct formalisation of their prose (EquivSpanSpec.v: the
+   span-restricted evaluation), soundness and completeness ;
+   obs_equiv is an equivalence relation ; plus the generic lemmas: the verdict of any
    rule is independent of modes / families / fuel (C09_modes_irrelevant) and control-enabled nodes are
    transparent (hook visibility does not influence outcomes); the verified table bisimulation
    (C09_table_equiv_sound) and its application to the alias schemas regenerated through the compiler on
    every run (C09_alias_schemas: 45 rule/clause pairs).
-   At behaviour level only (not yet lifted to tables): strict< R1, R2 >, rep_opt< Num, R > (all Num).
+   Also kept at behaviour level (closures): strict< R1, R2 >, rep_opt< Num, R >.
    NOT YET PROVED in Coq (they stay covered by the twin oracle of lib/props_c09.py, which runs the real
-   library on the rule and on the expansion produced from the reference text): rep,
-   rep_min_max, strict with 1 or 3+ rules, star_strict, star_partial/list_tail first clause, partial (2+ rules), plus ==
-   rep_min< 1, .. >, until< R > == until< R, any >, must == sor< R, raise< R > > (differs in the error
-   POSITION: must raises where the sub-rule left the cursor in optional mode, the expansion at the start),
-   minus / rematch (prose), eolf, everything, string, identifier, keyword, shebang, ranges, contrib rules. *)
-From PegtlV Require Import Base Decode Grammar Engine EngineFacts AtomFacts Mono Equiv EquivFacts EquivEval EquivHeads EquivTable EquivBisim EquivAlias.
+   library on the rule and on the expansion produced from the reference text): list_tail< R, S, P > first clause,
+   must< R... > for several R against seq< sor< R, raise< R > >... > (follows the single-rule statement only up to
+   positions), eol, eolf, everything, string == seq< one... >, ranges == sor< range..., one >, shebang, contrib rules. *)
+From PegtlV Require Import Base Decode Grammar Engine EngineFacts AtomFacts Mono Equiv EquivFacts EquivEval EquivHeads EquivTable EquivBisim EquivAlias EquivHeads2 EquivTable2 EquivMust EquivSpanSpec EquivSpan.
 From PegtlV.gen Require Import AliasC09_gen AliasC09Claims_gen.
 
 (* the verdict of any rule does not depend on apply mode, rewind mode, action/control family, or fuel *)
@@ -110,6 +121,178 @@ Theorem C09_rep_opt_doc_refines_impl :
     Sim false (dM d1) (dM d2) (c_rep C k (c_opt C f) d1 c) (c_rep_opt C k g d2 c).
 Proof. exact rep_opt_B. Qed.
 Print Assumptions C09_rep_opt_doc_refines_impl.
+
+(* ---------- round 2: the repetition family, packs of any length, must / rematch / minus ---------- *)
+(* obs_equiv is an equivalence relation (so documented expansions compose) *)
+Theorem C09_obs_equiv_refl :
+  forall G C, noact_cfg C -> plain_table G -> forall r, obs_equiv G C r r.
+Proof. exact obs_equiv_refl. Qed.
+Print Assumptions C09_obs_equiv_refl.
+Theorem C09_obs_equiv_sym :
+  forall G C r1 r2, obs_equiv G C r1 r2 -> obs_equiv G C r2 r1.
+Proof. exact obs_equiv_sym. Qed.
+Print Assumptions C09_obs_equiv_sym.
+Theorem C09_obs_equiv_trans :
+  forall G C r1 r2 r3, obs_equiv G C r1 r2 -> obs_equiv G C r2 r3 -> obs_equiv G C r1 r3.
+Proof. exact obs_equiv_trans. Qed.
+Print Assumptions C09_obs_equiv_trans.
+
+(* rep< N, R >  ==  seq< R, ..., R >  (N copies; every N, N = 0 and N = 1 included) *)
+Theorem C09_rep :
+  forall G C, noact_cfg C -> plain_table G -> table_wf G ->
+  forall n r1 r2 r, node G r1 (HRep n) [r] -> node G r2 HSeq (repeat r n) -> obs_equiv G C r1 r2.
+Proof. exact rep_seq_table. Qed.
+Print Assumptions C09_rep.
+
+(* rep_opt< N, R >  ==  rep< N, opt< R > >  (every N), on tables *)
+Theorem C09_rep_opt :
+  forall G C, noact_cfg C -> plain_table G -> table_wf G ->
+  forall n r1 r2 o r, node G r1 (HRepOpt n) [r] -> node G r2 (HRep n) [o] -> node G o HPartial [r] -> obs_equiv G C r1 r2.
+Proof. exact rep_opt_table. Qed.
+Print Assumptions C09_rep_opt.
+
+(* rep_min_max< Min, Max, R >  ==  seq< rep< Min, R >, rep_opt< Max - Min, R >, not_at< R > >  (every Min, Max) *)
+Theorem C09_rep_min_max :
+  forall G C, noact_cfg C -> plain_table G -> table_wf G ->
+  forall mn mx r1 r2 a b na r,
+    node G r1 (HRepMinMax mn mx) [r] ->
+    node G r2 HSeq [a; b; na] -> node G a (HRep mn) [r] -> node G b (HRepOpt (mx - mn)) [r] -> node G na HNotAt [r] ->
+    obs_equiv G C r1 r2.
+Proof. exact rep_min_max_table. Qed.
+Print Assumptions C09_rep_min_max.
+
+(* plus< R >  ==  seq< R, star< R > >   and   plus< R >  ==  rep_min< 1, R >  =  seq< rep< 1, R >, star< R > > *)
+Theorem C09_plus :
+  forall G C, noact_cfg C -> plain_table G -> table_wf G ->
+  forall r1 r2 st r, node G r1 HPlus [r] -> node G r2 HSeq [r; st] -> node G st HStarPartial [r] -> obs_equiv G C r1 r2.
+Proof. exact plus_table. Qed.
+Print Assumptions C09_plus.
+Theorem C09_plus_rep_min :
+  forall G C, noact_cfg C -> plain_table G -> table_wf G ->
+  forall r1 r2 rp st r,
+    node G r1 HPlus [r] -> node G r2 HSeq [rp; st] -> node G rp (HRep 1) [r] -> node G st HStarPartial [r] -> obs_equiv G C r1 r2.
+Proof. exact plus_rep_min_table. Qed.
+Print Assumptions C09_plus_rep_min.
+
+(* opt< R >  ==  sor< R, success >   (R = seq< R... > for a pack) *)
+Theorem C09_opt :
+  forall G C, noact_cfg C -> plain_table G ->
+  forall r1 r2 su r, node G r1 HPartial [r] -> node G r2 HSor [r; su] -> node G su HSuccess [] -> obs_equiv G C r1 r2.
+Proof. exact opt_sor_table. Qed.
+Print Assumptions C09_opt.
+
+(* partial< R1, Rs... >  ==  opt< seq< R1, partial< Rs... > > >:  "succeeds and stops matching when one of the rules fails,
+   consumes everything the successful rules consumed", any number of rules *)
+Theorem C09_partial :
+  forall G C, noact_cfg C -> plain_table G -> table_wf G ->
+  forall p p2 sq p' q1 qs,
+    node G p HPartial (q1 :: qs) -> node G p2 HPartial [sq] -> node G sq HSeq [q1; p'] -> node G p' HPartial qs -> obs_equiv G C p p2.
+Proof. exact partial_table. Qed.
+Print Assumptions C09_partial.
+
+(* list_tail< R, S >  (rule_t seq< R, star_partial< S, R > >)  ==  seq< list< R, S >, opt< S > >,  list< R, S > = seq< R, star< S, R > > *)
+Theorem C09_list_tail :
+  forall G C, noact_cfg C -> plain_table G -> table_wf G ->
+  forall r1 sp r2 li st sq os r s,
+    node G r1 HSeq [r; sp] -> node G sp HStarPartial [s; r] ->
+    node G r2 HSeq [li; os] -> node G li HSeq [r; st] -> node G st HStarPartial [sq] -> node G sq HSeq [s; r] -> node G os HPartial [s] ->
+    obs_equiv G C r1 r2.
+Proof. exact list_tail_table. Qed.
+Print Assumptions C09_list_tail.
+
+(* until< R >  ==  until< R, any > *)
+Theorem C09_until1 :
+  forall G C, noact_cfg C -> plain_table G ->
+  forall r1 r2 cnd a, node G r1 HUntil1 [cnd] -> node G r2 HUntil2 [cnd; a] -> node G a (HAny PkChar) [] -> obs_equiv G C r1 r2.
+Proof. exact until1_table. Qed.
+Print Assumptions C09_until1.
+
+(* until< R, S1, S2... >  (rule_t until< R, seq< S... > >)  ==  seq< star< not_at< R >, S1, S2... >, R > *)
+Theorem C09_until_pack :
+  forall G C, noact_cfg C -> plain_table G -> table_wf G ->
+  forall r1 sq1 r2 st sq2 na cnd s ss,
+    node G r1 HUntil2 [cnd; sq1] -> node G sq1 HSeq (s :: ss) ->
+    node G r2 HSeq [st; cnd] -> node G st HStarPartial [sq2] -> node G sq2 HSeq (na :: s :: ss) -> node G na HNotAt [cnd] ->
+    obs_equiv G C r1 r2.
+Proof. exact until_pack_table. Qed.
+Print Assumptions C09_until_pack.
+
+(* strict< R1, Rs... >  ==  sor< not_at< R1 >, seq< R1, Rs... > >  for any number of rules *)
+Theorem C09_strict :
+  forall G C, noact_cfg C -> plain_table G -> table_wf G ->
+  forall r1 r2 na sq q1 qs,
+    node G r1 HStrict (q1 :: qs) -> node G r2 HSor [na; sq] -> node G na HNotAt [q1] -> node G sq HSeq (q1 :: qs) -> obs_equiv G C r1 r2.
+Proof. exact strict_table. Qed.
+Print Assumptions C09_strict.
+
+(* star_strict< R1, Rs... >  ==  seq< star< R1, Rs... >, not_at< R1 > >:  "like star, but a partial match of R... lets it fail" *)
+Theorem C09_star_strict :
+  forall G C, noact_cfg C -> plain_table G -> table_wf G ->
+  forall r1 r2 st sq na q1 qs,
+    node G r1 HStarStrict (q1 :: qs) ->
+    node G r2 HSeq [st; na] -> node G st HStarPartial [sq] -> node G sq HSeq (q1 :: qs) -> node G na HNotAt [q1] -> obs_equiv G C r1 r2.
+Proof. exact star_strict_table. Qed.
+Print Assumptions C09_star_strict.
+
+(* must< R >  vs  sor< R, raise< R > >, up to the error position (must_rel: same success and cursor; no local failure on either
+   side; an exception of R passes through both; otherwise both raise parse_error for the rule R, the expansion at the start
+   position, must< R > at the position of a cursor reached from the start — see C09_must_position_refuted) *)
+Theorem C09_must_expansion_fwd :
+  forall G C, noact_cfg C -> plain_table G -> table_wf G ->
+  forall r1 r2 rz r, node G r1 HMust [r] -> node G r2 HSor [r; rz] -> node G rz HRaise [r] ->
+  forall f d1 d2 c, eval G C f d1 r1 c = Oof \/ exists f', must_rel r c (eval G C f d1 r1 c) (eval G C f' d2 r2 c).
+Proof. exact must_expansion_fwd. Qed.
+Print Assumptions C09_must_expansion_fwd.
+Theorem C09_must_expansion_bwd :
+  forall G C, noact_cfg C -> plain_table G -> table_wf G ->
+  forall r1 r2 rz r, node G r1 HMust [r] -> node G r2 HSor [r; rz] -> node G rz HRaise [r] ->
+  forall f d1 d2 c, eval G C f d2 r2 c = Oof \/ exists f', must_rel r c (eval G C f' d1 r1 c) (eval G C f d2 r2 c).
+Proof. exact must_expansion_bwd. Qed.
+Print Assumptions C09_must_expansion_bwd.
+
+(* rematch< R, S... > against the prose "R matches, and each S matches the input that R matched" (rematch_spec) *)
+Theorem C09_rematch_sound :
+  forall G C, noact_cfg C ->
+  forall r1 hd s ss, node G r1 HRematch (hd :: s :: ss) ->
+  forall f d c o c' evs, eval G C f d r1 c = Res o c' evs -> rematch_spec G C hd (s :: ss) c o c'.
+Proof. exact rematch_sound. Qed.
+Print Assumptions C09_rematch_sound.
+Theorem C09_rematch_complete :
+  forall G C, noact_cfg C -> plain_table G ->
+  forall r1 hd s ss, node G r1 HRematch (hd :: s :: ss) ->
+  forall c o c', rematch_spec G C hd (s :: ss) c o c' -> forall d, exists f evs, eval G C f d r1 c = Res o c' evs.
+Proof. exact rematch_complete. Qed.
+Print Assumptions C09_rematch_complete.
+
+(* minus< M, S > (rule_t rematch< M, not_at< S, eof > >) against the prose "M matches, and S does not match all of the input
+   that M matched" *)
+Theorem C09_minus_ok :
+  forall G C, noact_cfg C -> plain_table G ->
+  forall na sq s e, node G na HNotAt [sq] -> node G sq HSeq [s; e] -> node G e HEof [] ->
+  forall r1 m, node G r1 HRematch [m; na] ->
+  forall f d c c1 evs, eval G C f d r1 c = Res Ok c1 evs ->
+    Bs G C m c Ok c1 /\ exists span, span_of c c1 = Some span /\ ~ matches_all_of G C span s.
+Proof. exact minus_ok_sound. Qed.
+Print Assumptions C09_minus_ok.
+Theorem C09_minus_fail :
+  forall G C, noact_cfg C -> plain_table G ->
+  forall na sq s e, node G na HNotAt [sq] -> node G sq HSeq [s; e] -> node G e HEof [] ->
+  forall r1 m, node G r1 HRematch [m; na] ->
+  forall f d c c' evs, eval G C f d r1 c = Res Fail c' evs ->
+    c' = c /\ ((exists cf, Bs G C m c Fail cf) \/
+               exists c1 span, Bs G C m c Ok c1 /\ span_of c c1 = Some span /\ matches_all_of G C span s).
+Proof. exact minus_fail_sound. Qed.
+Print Assumptions C09_minus_fail.
+Theorem C09_minus_complete :
+  forall G C, noact_cfg C -> plain_table G ->
+  forall na sq s e, node G na HNotAt [sq] -> node G sq HSeq [s; e] -> node G e HEof [] ->
+  forall r1 m, node G r1 HRematch [m; na] ->
+  forall c c1 span, Bs G C m c Ok c1 -> span_of c c1 = Some span ->
+    (forall c3, Bs G C s span Fail c3 \/ (Bs G C s span Ok c3 /\ rest c3 <> []) ->
+       forall d, exists f evs, eval G C f d r1 c = Res Ok c1 evs) /\
+    (matches_all_of G C span s -> forall d, exists f evs, eval G C f d r1 c = Res Fail c evs).
+Proof. exact minus_complete. Qed.
+Print Assumptions C09_minus_complete.
 
 (* the verified table bisimulation: structural equality up to hook visibility, or one of the expansions above at the root *)
 Theorem C09_table_equiv_sound :
